@@ -22,11 +22,16 @@ pair of the nonlocal-feature pipeline, with the real index structures of a molec
 
 Rounding-noise guard.  The composite with a Gaussian plan contains two Cholesky solves with the exponent-overlap
 matrix (cond 6e4 / 7e5 / 4e7 for aux_lambd 2.0 / 1.8 / 1.6) and the inverse-overlap-weighted convolution tensors: its
-dot test has a *measured* floor of 1e-13 / 1e-11 / 6e-8 although every stage is adjoint to 1e-18 and the composite is
-bitwise the product of the stages.  Whenever the plain mismatch exceeds the tolerance, the rounding self-error of the two
-sides is measured by re-evaluating them on inputs rescaled by 1.1, 0.7, 1.3, 0.9 (exactly the same linear map, re-sampled
-rounding); the sub-case is a violation only if the mismatch exceeds 1e-12 * scale + 100 x that self-error, otherwise it is
-recorded under "<pair>[noise-limited]" and not counted as non-trivial.  (Same discipline as the FD self-error guard.)
+dot test has a *measured* floor of 2e-13 / 8e-11 / 6e-8 (random x, y; 1e-15 .. 1e-11 with quadrature-weighted x, y)
+although every stage pair is adjoint to <= 5e-17 and the composite is bitwise the product of the stages.  Whenever the
+plain mismatch exceeds the tolerance, the rounding self-error of the two sides is measured by re-evaluating them on
+inputs rescaled by 1.1, 0.7, 1.3, 0.9 (exactly the same linear map, re-sampled rounding); the sub-case is a violation only
+if the mismatch exceeds 1e-12 * scale + 100 x that self-error, otherwise it is recorded under "<pair>[noise-limited]" and
+not counted as non-trivial.  (Same discipline as the FD self-error guard.)  Consequently the oracle
+"_perform_fwd/_bwd_convolution" reports plain values up to just below 1e-12 and everything above in the noise-limited
+bin (about 6 % of the composite draws, all with Gaussian plans and lambda <= 1.8); a wrong direction flag in the backward
+composite is still detected in every Gaussian configuration including lambda = 1.6 (self-test).  All other pairs have
+measured floors <= 1.3e-14 (plan transform at lambda 1.6) and <= 1.4e-15 (SDMX feature map), i.e. never reach the guard.
 """
 import ctypes
 import os
@@ -51,8 +56,9 @@ ASSUMPTIONS = [
     "scratch columns of the l+1 terms (last n1 columns of f_gq) are outputs of neither direction: forward leaves zeros, "
     "backward ignores and overwrites them in its (copied) input",
     "SDMX get_vxc_ returns half of the gradient; the integrator's hermi_sum supplies the transpose (V + V^T is compared)",
-    "tolerance 1e-12 on |<Ax,y>-<x,By>|/(|Ax||y|+|x||By|); measured floors: stage pairs 1e-19..2e-15, SDMX 1e-23..1e-17, "
-    "composite 1e-20..6e-8 (conditioning of the Gaussian plan) -> rounding-noise guard, see module docstring",
+    "tolerance 1e-12 on |<Ax,y>-<x,By>|/(|Ax||y|+|x||By|); measured floors over seeds 0-4 / both tiers: NLDF stage pairs "
+    "<= 5e-17, plan transform <= 1.3e-14 (Cholesky solve, cond 4e7 at lambda 1.6), SDMX contraction <= 5e-17, SDMX feature map "
+    "<= 1.4e-15, composite 1e-20..6e-8 (conditioning of the Gaussian plan) -> rounding-noise guard, see module docstring",
     "grids indexer lmax is the package default 10 (other values cannot be built, see C19); aux-basis lmax is varied",
 ]
 REQUIRED_CALLS = [
@@ -98,7 +104,8 @@ def _nldf_cfgs(tier, rng):
     interps = ["onsite_direct", "onsite_spline"] if tier == "quick" else ["onsite_direct", "onsite_spline", "train_gen"]
     lams = [1.8, 1.6, 2.0]
     lmaxs = [10, 6, 4, 2, 10, 6]
-    threads = [1, 3, 1, 16, 1, 3, 1, 3, 1, 1] if tier == "thorough" else [1, 3, 16, 1, 3, 1]
+    # the runner gives a 16-thread worker the whole machine, i.e. those cases run one after the other: keep them ~5 %
+    threads = [1, 3, 1, 16, 1, 3, 1, 3, 1, 1, 1, 3, 1, 1, 3, 1, 1, 3, 1, 1] if tier == "thorough" else [1, 3, 16, 1, 3, 1]
     nrep = 5 if tier == "quick" else 70
     cfgs = []
     n = 0
@@ -145,7 +152,7 @@ def _sdmx_cfgs(tier, rng):
     kinds = ["sdmx", "sdmxg", "sdmx1", "sdmxg1", "sdmxfull"]
     mols = ["HF", "H2O", "He", "NH3", "LiH", "CH3F", "HOF", "H2O2"]
     bases = ["6-31g", "cc-pvdz", "def2-svp", "sto-3g"]
-    threads = [1, 3, 1, 16, 3, 1]
+    threads = [1, 3, 1, 16, 3, 1] if tier == "quick" else [1, 3, 1, 16, 3, 1, 1, 3, 1, 1, 3, 1]
     nrep = 2 if tier == "quick" else 24
     out = []
     n = 0
@@ -434,27 +441,41 @@ def _test_multiply(ctx, ccl, vtag, nrep):
     nin, nout = ccl.atco_inp.nao, ccl.atco_out.nao
     nb = ccl.nalpha if ccl.is_vk else ccl.nbeta
     for r in range(nrep):
-        prefill = bool(r % 2)
+        mode = ["zeroed", "prefilled", "output=None", "prefilled"][r % 4]
+        if mode == "output=None" and ccl.is_vk:
+            # ConvolutionCollectionK.multiply_atc_integrals allocates (atco_inp.nao, nalpha) for a missing output and then
+            # asserts (atco_out.nao, nalpha): AssertionError whenever the two bases differ.  Not an adjointness question
+            # (the generator always passes its own buffer); recorded as an observation only.
+            mode = "zeroed"
+        prefill = mode == "prefilled"
         p_out = _randn(rng, (nout, nb)) if prefill else np.zeros((nout, nb))
         p_in = _randn(rng, (nin, ccl.nalpha)) if prefill else np.zeros((nin, ccl.nalpha))
         state = {"ok_in": True}
 
         def fwd(x):
-            out = p_out.copy()
             xin = x.copy()
+            if mode == "output=None":
+                res = ccl.multiply_atc_integrals(xin, fwd=True)
+                state["ok_in"] = state["ok_in"] and np.array_equal(xin, x)
+                return res
+            out = p_out.copy()
             res = ccl.multiply_atc_integrals(xin, output=out, fwd=True)
             state["ok_in"] = state["ok_in"] and np.array_equal(xin, x) and res is out
             return out - p_out
 
         def bwd(y):
-            out = p_in.copy()
             yin = y.copy()
+            if mode == "output=None":
+                res = ccl.multiply_atc_integrals(yin, fwd=False)
+                state["ok_in"] = state["ok_in"] and np.array_equal(yin, y)
+                return res
+            out = p_in.copy()
             res = ccl.multiply_atc_integrals(yin, output=out, fwd=False)
             state["ok_in"] = state["ok_in"] and np.array_equal(yin, y) and res is out
             return out - p_in
 
         _pair(ctx, "multiply_atc_integrals", mech, fwd, bwd, _randn(rng, (nin, ccl.nalpha)), _randn(rng, (nout, nb)),
-              variant="prefilled" if prefill else "zeroed")
+              variant=mode)
         ctx.rec.require("multiply_atc_integrals:input", state["ok_in"], mechanism="multiply_atc_integrals[%s]:modifies-input" % vtag)
 
 
@@ -815,9 +836,9 @@ def classify_sanitizer(blocks):
     """One failure per distinct (kind, first repository frame)."""
     out, seen = [], set()
     for kind, text in blocks:
-        m = re.search(r"in (\w+) [^\n]*ciderpress/lib/([\w/]+\.c):(\d+)", text)
-        where = "%s(%s:%s)" % (m.group(1), m.group(2), m.group(3)) if m else "unknown-frame"
-        fn = m.group(1) if m else "unknown"
+        m = re.search(r"in ([\w.]+) [^\n]*ciderpress/lib/([\w/]+\.c):(\d+)", text)
+        fn = re.sub(r"\._omp_fn\.\d+$", "", m.group(1)) if m else "unknown"
+        where = "%s(%s:%s)" % (fn, m.group(2), m.group(3)) if m else "unknown-frame"
         key = (kind, fn)
         if key in seen:
             continue
